@@ -56,6 +56,10 @@ def text_params(kbd, extra=0, slack=SLACK):
             if macro_depth:
                 total += 4
         prev = t
+    # a time-out that is in force although the text does not write it: the default sequence-timeout (1000 ticks) when a
+    # sequence leader can be pressed (also from inside a macro / virtual key) and no sequence-timeout is configured
+    if ("sldr" in toks or "sequence" in toks or "defseq" in toks) and "sequence-timeout" not in toks:
+        extra += 1000
     p = {"sum": total, "red": red, "slack": slack}
     if extra:
         p["extra"] = extra
